@@ -179,3 +179,12 @@ Definition p_finish (s : pst) : option (tree * list (N * N * parse_msg)) :=
   | Some t => Some (t, rev (errs s))
   | None => None
   end.
+
+(** the text of a syntax error message: a literal of the grammar, `eco_format!("expected {kind:?}")`, or the
+    message parked by the lexer / preprocessor *)
+Definition msg_text (m : parse_msg) : string :=
+  match m with
+  | MLit s => s
+  | MExpected k => String.append "expected " (tk_name k)
+  | MTok e => any_err_msg e
+  end.
